@@ -3,7 +3,7 @@
    [runs b sc os] = the loop of back-end b on script sc, one iteration per kernel report in the
    oracle list os (ANY list: the life-cycle theorems do not rely on the kernel behaving);
    the result flag tells whether the loop has exited.  Traces are newest-first. *)
-From MV Require Import C13.Model C13.ProofsLife C13.ProofsIso C13.ProofsAgree.
+From MV Require Import C13.Model C13.ProofsLife C13.ProofsIso C13.ProofsAgree C13.ProofsRead C13.ProofsFlat.
 From Coq Require Import Permutation.
 
 (* the close callback runs at most once per context *)
@@ -43,19 +43,29 @@ Theorem evl_no_clear_or_exit_while_running : forall b sc os s',
 Proof. exact life_no_exit_before. Qed.
 Print Assumptions evl_no_clear_or_exit_while_running.
 
-(* FULL STATEMENT evl_read_called_when_pending: in every pass, every registered context the
-   kernel reported readable gets its read callback in that pass.
-   PROVED: the epoll back-end, per epoll_wait batch (below).  For select and poll the loop body
-   calls the read callback of the context under the cursor when it is reported (by definition of
-   sel_walk / poll_step); that the cursor reaches every registered context in the pass is not proved
-   (select: fuel of the list walk; poll: n accounting, and it is FALSE for poll when an fd reports
-   POLLIN and POLLHUP together, see evl_poll_skipped_slot_untouched and the example
-   poll_double_decrement_skips_one_pass).  The monitor checks the per-pass rule on every run. *)
-Theorem evl_read_called_when_pending_partial : forall rep s, Inv s -> bk s = BEpoll ->
-  forall x e, In (x, e) (ep_filter [] (ereg s) rep) -> x <> 0 -> has_in e = true ->
-  exists t n, tr (dispatch_epoll rep s) = t ++ tr s /\ In (ERead x n) t.
-Proof. exact read_dispatch_epoll. Qed.
-Print Assumptions evl_read_called_when_pending_partial.
+(* in every pass, every registered context the kernel reported readable gets its read callback:
+   - select: in that pass (the list walk reaches every registered context, also the ones callbacks
+     append during the walk);
+   - poll: in that pass, or - when the walk stopped above its slot because an fd reporting POLLIN and
+     POLLHUP together was counted twice - the slot is untouched, the input still pending, and the
+     next kernel call reports the context readable again (the documented one-pass delay; the
+     hypothesis ev_in says the report was true, which is the kernel's part);
+   - epoll: in that epoll_wait batch. *)
+Theorem evl_read_called_when_pending :
+  (forall rep n s, Inv s -> bk s = BSelect -> 0 < n ->
+     forall x, In x (clist s) -> Nat.eqb (lookup x rep) 0 = false ->
+     exists t k, tr (dispatch_select rep n s) = t ++ tr s /\ In (ERead x k) t) /\
+  (forall rep n s j x r0, Inv s -> bk s = BPoll ->
+     nth_error (parr s) j = Some (x, r0) -> 1 <= j ->
+     has_in (lookup x rep) = true -> ev_in (cx s x) = true ->
+     let s' := dispatch_poll rep n s in
+     (exists t m, tr s' = t ++ tr s /\ In (ERead x m) t) \/
+     (exists e, In (x, e) (kern s') /\ has_in e = true)) /\
+  (forall rep s, Inv s -> bk s = BEpoll ->
+     forall x e, In (x, e) (ep_filter [] (ereg s) rep) -> x <> 0 -> has_in e = true ->
+     exists t n, tr (dispatch_epoll rep s) = t ++ tr s /\ In (ERead x n) t).
+Proof. exact read_all. Qed.
+Print Assumptions evl_read_called_when_pending.
 
 (* poll: the step at slot i leaves every lower slot (context and revents) as it was, so a slot the
    walk does not reach in this pass (n used up by a POLLIN+POLLHUP fd counted twice) is still
@@ -101,20 +111,38 @@ Theorem evl_add_reject_remove_isolated :
 Proof. exact iso_all. Qed.
 Print Assumptions evl_add_reject_remove_isolated.
 
-(* FULL STATEMENT evl_backends_agree: forall sc fuel, in_S sc = true -> the three loops (on the
-   model's kernel function, [runks]) have exited -> agree sc fuel   (same bytes offered, same
-   closed/cleared outcome for every context).  NOT PROVED.
-   PROVED PART: a visit (read callback with its triggered actions, flagging, close callback and
-   removal from ctx_list) transforms the shared state identically in the three back-ends as long as
-   the poll table has room for the adds; the back-ends therefore differ only in the order of visits
-   and in when a flagged context is noticed. *)
-Theorem evl_backends_agree_partial : forall x s s', shared s = shared s' -> read_room x s -> read_room x s' ->
+(* FULL STATEMENT evl_backends_agree: forall sc, in_S sc = true -> the three loops (on the model's
+   kernel function, [runks]) have exited -> every context has the same outcome (bytes offered,
+   closed, cleared) in the three back-ends.
+   PROVED for the FLAT sub-class of S ([flat]): no read-callback triggers - every action (write,
+   half-close, close of the peer, add, wake-up) is issued before run() or from an idle phase, i.e.
+   from the wake callback at quiescence, in any number of phases -, no scripted exit / shutdown,
+   and the adds fit hints_max_fd.  Each back-end ends with the outcome of the back-end-free
+   specification [spec_outcome]: every registered context was offered every byte written to it and
+   is closed iff its peer terminated, cleared otherwise (evl_flat_outcome); hence agreement, each
+   loop with its own number of kernel calls.
+   NOT PROVED: scripts of S whose read callbacks issue actions (triggers); there the proved part
+   is evl_backends_agree_visit below (a visit transforms the shared state identically in the three
+   back-ends) and the monitor checks agreement on every generated S script. *)
+Theorem evl_flat_outcome : forall sc, flat sc = true -> forall b fuel s',
+  runks b sc fuel = (s', true) -> forall x, outcome s' x = spec_outcome sc x.
+Proof. exact flat_outcome. Qed.
+Print Assumptions evl_flat_outcome.
+
+Theorem evl_backends_agree_partial : forall sc, flat sc = true -> forall f1 f2 f3,
+  snd (runks BSelect sc f1) = true -> snd (runks BPoll sc f2) = true -> snd (runks BEpoll sc f3) = true ->
+  forall x, outcome (fst (runks BSelect sc f1)) x = outcome (fst (runks BPoll sc f2)) x /\
+            outcome (fst (runks BSelect sc f1)) x = outcome (fst (runks BEpoll sc f3)) x.
+Proof. exact agree_flat. Qed.
+Print Assumptions evl_backends_agree_partial.
+
+Theorem evl_backends_agree_visit : forall x s s', shared s = shared s' -> read_room x s -> read_room x s' ->
   shared (cb_read x s) = shared (cb_read x s') /\
   shared (set_flag x s) = shared (set_flag x s') /\
   shared (set_clist (rm x (clist (cb_close x s))) (cb_close x s)) =
   shared (set_clist (rm x (clist (cb_close x s'))) (cb_close x s')).
 Proof. exact agree_visit. Qed.
-Print Assumptions evl_backends_agree_partial.
+Print Assumptions evl_backends_agree_visit.
 
 (* outside S agreement fails: the known finding cross-shutdown (findings/C13-cross-shutdown.case) *)
 Theorem evl_backends_agree_refuted : exists sc fuel,
